@@ -4,6 +4,7 @@ import QiVerif.Driver.C20
 import QiVerif.Driver.C19
 import QiVerif.Driver.C16
 import QiVerif.Driver.C09
+import QiVerif.Driver.Codec
 open QiVerif.Driver
 
 /-- parameters handed over by ./check from the regenerated constants -/
@@ -28,6 +29,8 @@ def dispatch (p : Params) (st : DState) (line : String) : DState × String :=
     else if op.startsWith "conv" then (st, C20.run ws)
     else if op.startsWith "session." then (st, C19.run ws)
     else if op.startsWith "sig." then (st, C09.run ws)
+    else if op.startsWith "rd." || op.startsWith "val." || op.startsWith "enc." || op.startsWith "dec." then
+      (st, Codec.run ws)
     else if op.startsWith "svc." then
       let (s', out) := C16.run st.svc ws
       ({ st with svc := s' }, out)
